@@ -429,6 +429,46 @@ func c04ConfigPath(ctx *Ctx, idx int) {
 	}
 }
 
+// c04StoppingFan: a fan that is allowed to stop (neverStop off) and has a tachometer; below a threshold it really
+// stops (0 RPM). With a constant curve value the request must still settle at S(c) and stay there however long the
+// curve idles - the stall protection is for never-stop fans only.
+func c04StoppingFan(ctx *Ctx, cfg c04Config, r *rand.Rand) {
+	S, msg := c04Steady(cfg)
+	if msg != "" {
+		return
+	}
+	for _, loop := range []LoopSpec{{Kind: "direct"}, {Kind: "ratelimit", M: 1 + r.Intn(20)}} {
+		c := pick(r, 0, 0, 1, r.Intn(64))
+		theta := S[c] + 1 + r.Intn(40) // the fan stands still at the steady request
+		sc := &Scenario{Fan: FanSpec{Kind: "sim", NeverStop: false, HasRpm: true, HasPwm: true, HasEnable: false, SimMin: cfg.Min, SimMax: cfg.Max},
+			Plant: PlantSpec{Kind: "threshold", Theta: theta, MaxRpm: 2000}, Map: MapSpec{Kind: "identity"}, Loop: loop, Window: pick(r, 1, 3, 10), InitPwm: r.Intn(256), PriorRpm: 1500}
+		for k := 0; k < 600; k++ {
+			sc.Steps = append(sc.Steps, CycleStep{Curve: c, DtMs: 200, Polls: 1})
+		}
+		settleBound := 300
+		bad := false
+		runScenario(ctx, sc, func(w *World, rec *CycleRecord) bool {
+			ctx.Eval(1)
+			if rec.Err != nil || rec.Panic != "" {
+				ctx.Violation("stopping-fan:control-error-at-constant-curve:"+loop.Kind, fmt.Sprintf("cycle %d: %v %s; %s", rec.Idx, rec.Err, firstLine(rec.Panic), jsonStr(sc.Fan)), sc)
+				bad = true
+				return true
+			}
+			// S(c) for a fan that may stop is computed with minimum 0
+			want := int(float64(c) / 255 * float64(cfg.Max))
+			if rec.Idx >= settleBound && rec.Request != want {
+				ctx.Violation("stopping-fan:request-leaves-steady-value:"+loop.Kind, fmt.Sprintf("cycle %d: request %d, steady value %d (curve %d, fan max %d, fan stands still below PWM %d, window %d)", rec.Idx, rec.Request, want, c, cfg.Max, theta, sc.Window), sc)
+				bad = true
+				return true
+			}
+			return false
+		})
+		if !bad {
+			ctx.Nontrivial(fmt.Sprintf("stopping-fan|%d|%d|%s|%d|%d", cfg.Min, cfg.Max, loop.Kind, c, sc.Window))
+		}
+	}
+}
+
 func init() {
 	register("C04", func(ctx *Ctx) {
 		if ctx.Replay != "" {
@@ -493,6 +533,7 @@ func init() {
 			}
 			c04Pid(ctx, cfg, r, nPid)
 			c04ConfigPath(ctx, i)
+			c04StoppingFan(ctx, cfg, r)
 		}
 	})
 }
